@@ -156,7 +156,12 @@ class DSDLDefinition(ReadableDSDLFile):
         """
         root_path = cls._infer_path_to_root_from_first_found(dsdl_path, valid_dsdl_roots)
         if not dsdl_path.is_absolute():
-            dsdl_path_resolved = (root_path.parent / dsdl_path).resolve(strict=False)
+            try:
+                _ = dsdl_path.relative_to(root_path)
+            except ValueError:  # The path is given relative to the directory that contains the root namespace.
+                dsdl_path_resolved = (root_path.parent / dsdl_path).resolve(strict=False)
+            else:  # The path already leads through the inferred root; it is relative to the working directory.
+                dsdl_path_resolved = dsdl_path.resolve(strict=False)
         else:
             dsdl_path_resolved = dsdl_path.resolve(strict=False)
         return cls(dsdl_path_resolved, root_path)
